@@ -80,7 +80,7 @@ class Executor:
         self.inline_depth = 0
         self.fn_stack: list[str] = []
         self._solver = z3.Solver()
-        self._solver.set("timeout", 3000)
+        self._solver.set("timeout", 1000)
         self.covers = 0
         self.old: State | None = None
         self.a: dict = {}
